@@ -620,6 +620,10 @@ def part_route(chk, gens):
         v, cs, cc = layouts[i % len(layouts)]
         cases.append({"name": "dtls%s/cidS=%d/cidC=%d" % (v, cs, cc), "ver": v, "cidS": cs, "cidC": cc, "steps": h["steps"]})
     cases = [c for c in cases if c["cidC"] >= 0]       # a client without generator negotiates no CID: nothing to route by
+    # the same histories with a listener MTU so small that the ServerHello leaves in several fragments
+    for i, h in enumerate(s2[:12 if chk.quick else 120]):
+        v, mtu = (("13", 100), ("12", 64))[i % 2]
+        cases.append({"name": "dtls%s/cidS=8/cidC=4/mtu%d" % (v, mtu), "ver": v, "cidS": 8, "cidC": 4, "mtu": mtu, "steps": h["steps"]})
     rows, _ = run_simple(vlib.build("root"), "TestVerifC15Listen", cases, "dtls listener")
     if len(rows) != len(cases):
         raise vlib.Inconclusive("dtls listener harness ran %d of %d cases" % (len(rows), len(cases)))
@@ -634,7 +638,8 @@ def part_route(chk, gens):
         for k in ("arrivals", "toOwner", "offPath"):
             tot[k] += r[k]
         for v in (r.get("violations") or [])[:1]:
-            chk.violation({"kind": "routing", "what": v.split(": ", 1)[-1], "case": c, "config": c["name"], "part": "dtls-listener"})
+            chk.violation({"kind": "routing", "what": v.split(": ", 1)[-1], "case": c, "config": c["name"], "part": "dtls-listener",
+                           "fragmentedServerHello": bool(c.get("mtu"))})
         if r.get("diverge") and not r.get("violations"):
             tot["model_code_divergences"] += 1
             if tot["model_code_divergences"] <= 3:
